@@ -824,9 +824,14 @@ func (s *ShapeIndex) maybeApplyUpdates() {
 	if atomic.LoadInt32(&s.status) != fresh {
 		verifPoint("index.beforeLock")
 		s.mu.Lock()
-		s.applyUpdatesInternal()
-		verifPoint("index.beforeStatusStore")
-		atomic.StoreInt32(&s.status, fresh)
+		// Another goroutine may have applied the updates while this one was
+		// waiting for the lock; applying them again would modify the index
+		// under readers that have already seen it fresh.
+		if atomic.LoadInt32(&s.status) != fresh {
+			s.applyUpdatesInternal()
+			verifPoint("index.beforeStatusStore")
+			atomic.StoreInt32(&s.status, fresh)
+		}
 		verifPoint("index.beforeUnlock")
 		s.mu.Unlock()
 	}
